@@ -4,7 +4,7 @@ import math
 import numpy as np
 from hypothesis import strategies as st
 
-from harness import build, gen, tomo
+from harness import reps, build, gen, tomo
 from harness import refmodel as rm
 
 RULE = (
@@ -91,7 +91,19 @@ def check_projected_linear(case, ctx):
     exact = tomo.exact_dists(case, info)
     empi = tomo.make_empi(case["datadesc"], exact)
     ctx.label(case["tomo"], case["shape"], f"flag:{case['flag']}", case["order"], "data:" + case["datadesc"]["data"])
-    est = ProjectedLinearEstimator(mode_proj_order=case["order"]).calc_estimate(qt, empi)
+    ple = ProjectedLinearEstimator(mode_proj_order=case["order"])
+    if reps.pick(repr(case["raw_u"]), 2) == 0:
+        # the estimator object served another tomography of the same shape first (other tester bases, built and dropped in a
+        # helper): the estimate below belongs to the tomography given in ITS call
+        def _serve_sibling():
+            case2 = dict(case)
+            case2["raw_u"] = [float(x) for x in case["raw_u"]][::-1]
+            qt2, _, info2 = tomo.build_tomo(case2)
+            ple.calc_estimate(qt2, [(100, np.asarray(p_, dtype=float)) for p_ in tomo.exact_dists(case2, info2)])
+
+        _serve_sibling()
+        ctx.label("estimator-object:served-sibling-tomography-first")
+    est = ple.calc_estimate(qt, empi)
     q = est.estimated_qoperation
     ctx.check(type(q).__name__.lower() == t, "estimate_type", type(q).__name__)
     z = tomo.estimate_stacked(q)
@@ -226,6 +238,28 @@ def run_lossmin(case, qt, empi, detailed=True):
         max_iteration_proj_physical=case.get("max_iter_proj", 3000),
         **({"eps": case["algo_eps"]} if case.get("algo_eps") else {}),
     )
+    if case.get("raw_u") and case.get("tomo") and reps.pick(("sib", repr(case["raw_u"])), 3) == 0:
+        # another estimation ran earlier in the process: NEW loss / algorithm / estimator objects of the same classes on a
+        # sibling tomography (other tester bases, same sizes), a handful of iterations; nothing of it may reach this run
+        def _sibling_run():
+            import contextlib
+            import io
+
+            case2 = dict(case)
+            case2["raw_u"] = [float(x) for x in case["raw_u"]][::-1]
+            qt2, _, info2 = tomo.build_tomo(case2)
+            loss2, loss_opt2 = make_loss(case["loss"], qt2.num_variables)
+            algo2, algo_opt2 = make_algo(case["algo"], on_algo_eq_constraint=True, on_algo_ineq_constraint=True,
+                                         mode_proj_order=case["order"], max_iteration_optimization=5,
+                                         max_iteration_proj_physical=200)
+            data2 = [(100, np.asarray(p_, dtype=float)) for p_ in tomo.exact_dists(case2, info2)]
+            try:
+                with contextlib.redirect_stdout(io.StringIO()):
+                    LossMinimizationEstimator().calc_estimate(qt2, data2, loss2, loss_opt2, algo2, algo_opt2)
+            except ValueError:
+                pass
+
+        _sibling_run()
     prior = case.get("prior_use")
     if prior:
         # the same loss and algorithm objects have served another configuration of the same tomography before
@@ -250,8 +284,6 @@ def run_lossmin(case, qt, empi, detailed=True):
     if case["loss"] in ("se_fast", "re_fast"):
         # the tomography-based losses flatten the data themselves: (n, 1) columns are the same data to them as flat arrays
         # (observed on the unchanged library; the generic losses reject columns, so they always get flat arrays)
-        from harness import reps
-
         if reps._on() and reps.pick(("empi", [np.asarray(q, dtype=float).tobytes() for _, q in empi]), 3) == 0:
             empi_in = [(n, np.asarray(q, dtype=float).reshape(-1, 1)) for n, q in empi]
     res = LossMinimizationEstimator().calc_estimate(
